@@ -660,16 +660,17 @@ func (f *File) pipeline(d []byte, owner string, record bool) []int {
 
 // chunked walks a version 1 B-tree of raw data chunks and assembles the dataset bytes (unfiltered only).
 func (f *File) chunked(o *Obj, btAddr uint64, nd int, total uint64, record bool) {
-	if btAddr == undef {
-		o.DataErr = "no chunk index"
-		return
-	}
-	if btAddr == 0 {
-		// address 0 is the superblock: "no index yet" is the undefined address in the format
-		if record {
+	if btAddr == undef || btAddr == 0 {
+		if btAddr == 0 && record {
+			// address 0 is the superblock: "no index yet" is the undefined address in the format
 			f.ext("msg-layout", 0, 0, o.Path, map[string]bool{"LAYOUT3.chunk.index.undefined-when-absent": false})
 		}
-		o.DataErr = "no chunk index"
+		// no chunk has been written: every element has the fill value (IV.A.2.i: storage is allocated when data is written)
+		if len(o.Filters) == 0 && total <= 1<<28 {
+			o.Data = make([]byte, total)
+		} else {
+			o.DataErr = "no chunk index"
+		}
 		return
 	}
 	elem := uint64(o.Type.Size)
